@@ -1,6 +1,7 @@
 import JsonPathVerif.Lex.Int
 import JsonPathVerif.Lex.Names
 import JsonPathVerif.Lex.Tokens
+import JsonPathVerif.ParserWT
 import JsonPathVerif.Parser
 import JsonPathVerif.Validity
 /-! # C07 – every string that is not a valid RFC 9535 query is rejected (lexical layers on the GENERATED grammar) -/
@@ -43,6 +44,19 @@ theorem C07_partial_tokens (c : Ctx) (pos : Nat) (r : Rest) (s : St RuleId) :
   · have := int_denotes c pos r; unfold lexR at this; rw [h] at this; simpa using this.symm
   · have := number_denotes c pos r; unfold lexR at this; rw [h] at this; simpa using this.symm
   · have := string_denotes c pos r; unfold lexR at this; rw [h] at this; simpa using this.symm
+
+/-- layer 6b (function typing), for ALL strings: a query the parser accepts is well-typed in the sense of RFC 9535 2.4.3 –
+`length`, `match`, `search` only receive ValueType arguments, `count` and `value` only queries, arities are right, a
+value-returning function is never a test expression and a logical one never a comparison operand.  Proved for every pair tree the
+builder of `parser.rs` can be handed (`builderWT`), hence independent of the grammar. -/
+theorem C07_partial_typing (s : Str) (q : List Segment) (h : parseJsonPath s = .ok q) : Spec.wtSegs q = true :=
+  parse_wellTyped s q h
+
+/-- the typing discipline is not vacuous: the ill-typed ASTs of defect D15 are rejected by `Spec.wtSegs` -/
+example : Spec.wtSegs [.selector (.filter (.atom (.cmp .eq (.fn (.length (.test (.rel [.selector .wildcard])))) (.lit (.int 2)))))] = false ∧
+    Spec.wtSegs [.selector (.filter (.atom (.test (.fn (.length (.test (.rel [])))) false)))] = false ∧
+    Spec.wtSegs [.selector (.filter (.atom (.cmp .eq (.fn (.length (.test (.rel [.selector (.name "a".toList)])))) (.lit (.int 2)))))] = true := by
+  decide
 
 /-- blanks, leading zeros and `-0` are not `int` lexemes -/
 example : rfcInt "1 2".toList = some " 2".toList ∧ rfcInt "- 1".toList = none ∧ rfcInt "-0".toList = none ∧
